@@ -2,7 +2,8 @@
 """Regenerate MANIFEST.json from vlib/checks.py (run after editing checks)."""
 import json, os, sys
 sys.path.insert(0, os.path.dirname(os.path.dirname(os.path.abspath(__file__))))
-from vlib.checks import CHECKS, NOT_APPLICABLE, ENGINES
+from vlib.checks import CHECKS, NOT_APPLICABLE, ENGINES, READY
+CHECKS = {k: v for k, v in CHECKS.items() if k in READY}
 
 VERIF = os.path.dirname(os.path.dirname(os.path.abspath(__file__)))
 props = [json.loads(l)["id"] for l in open(os.path.join(VERIF, "properties.jsonl"))]
